@@ -56,8 +56,11 @@ INFO = dict(
     level_text="Theorems over an executable model of Transform.apply / _apply_batched / Transformable._transform / "
                "Shape._transform_inplace / PointCloud._transform_self_inplace / LandmarkManager._transform_inplace / "
                "Copyable.copy and its LandmarkManager and LabelledPointUndirectedGraph overrides / "
-               "TransformChain._apply / WithDims._apply / Homogeneous._apply, each method looked up in the "
-               "method-resolution table exactly as Python resolves it.  TRANSLATED, not transcribed: on every run the "
+               "TransformChain._apply / WithDims._apply / Homogeneous._apply; _transform, _transform_inplace, "
+               "_transform_self_inplace and copy are looked up in the method-resolution table exactly as Python resolves "
+               "them; _apply_batched is NOT resolved: the one modelled, translated and proved is Transform._apply_batched, "
+               "which is what every transform class runs except TransformChain and PiecewiseAffine (regenerated "
+               "applyTable, column batched; see partial).  TRANSLATED, not transcribed: on every run the "
                "source text of Transform.apply (nested closure, try / except AttributeError, default batch_size=None), "
                "Transform._apply_batched (the loop over range, the slices, append, np.vstack), "
                "Transformable._transform, Transformable._transform_inplace, Shape._transform_inplace, "
@@ -68,7 +71,7 @@ INFO = dict(
                "(Generated/C02SrcV.lean: objects as values; Generated/C02SrcH.lean: the same text read with the heap "
                "vocabulary - objects are cells, attribute assignment is a write, the closure allocates, a call may "
                "raise and hands the heap back) and proved equal to the hand-written definitions for all arguments, all "
-               "callee functions and all heaps (GenProps/C02SrcV.lean, C02SrcH.lean: 46 obligations; the proofs unfold, "
+               "callee functions and all heaps (GenProps/C02SrcV.lean, C02SrcH.lean: 47 obligations incl. the restated property theorems; the proofs unfold, "
                "normalise and split cases, so renamed temporaries, reordered independent statements, inverted tests "
                "keep them and a dropped branch, a swapped argument, an off-by-one break them).  The heap-level "
                "methods as the source states them, resolved through the table, ARE the model's applyH on every heap "
@@ -78,10 +81,10 @@ INFO = dict(
                "with landmark groups nested to any depth and every array function f, apply succeeds and returns the "
                "same class, points f(points), every group at every depth with points f(group points), all other "
                "attributes and the group names verbatim; it agrees with apply on the bare array; identity and "
-               "composition laws; with batch_size the same holds with f = _apply_batched(f, k), which equals f for "
-               "every transform that treats points one by one; a TransformChain applied to a shape equals its members "
-               "applied to the shape one after the other; WithDims slices the points of every group alike.  Error "
-               "branches: apply(x, batch_size <= 0) raises ValueError exactly when some array of the tree has points "
+               "composition laws; with batch_size None or positive the same holds with f = Transform._apply_batched(f, k), "
+               "which equals f for every transform that treats points one by one; a TransformChain applied to a shape equals its members "
+               "applied to the shape one after the other; WithDims (in-range indices) slices the points of every group alike.  Error "
+               "branches (transform classes that run Transform._apply_batched): apply(x, batch_size <= 0) raises ValueError exactly when some array of the tree has points "
                "and otherwise equals apply(x) (apply_nonpos_batch); WithDims with an index outside [-n_dims, n_dims) or "
                "a mask of the wrong length raises IndexError, negative in-range indices, masks and a single integer "
                "select what numpy selects (withDimsE_*); there is never a partial result.  Heap "
@@ -108,8 +111,8 @@ INFO = dict(
                "coordinates; C / Fortran / strided / read-only / "
                "caller-owned arrays; groups aliased inside the manager or sharing the host's array; shapes that are "
                "results of earlier transforms) under every transform class with and without batch_size and diffing "
-               "against the Lean driver, which cuts and stacks the batches itself and evaluates homogeneous matrices, "
-               "chains of them and WithDims exactly; the error branches (batch_size 0 / negative, WithDims indices and "
+               "against the Lean driver, which cuts and stacks the batches itself and evaluates homogeneous matrices "
+               "(homogeneous coordinate w != 0; always 1 in the affine family), chains of them and WithDims exactly; the error branches (batch_size 0 / negative, WithDims indices and "
                "masks, piecewise affine outside its domain) are run on the real code and through the methods as the "
                "source states them (driver op applye: same outcome, same exception kind, no old cell written); an "
                "independent oracle decides the property on the real code.",
@@ -125,7 +128,17 @@ INFO = dict(
                "CPython attribute lookup and dict iteration order; numpy arrays as immutable-content cells that are "
                "only ever replaced; float rounding (points are compared to the same float computation on the bare "
                "array, and for the homogeneous family, chains of it and WithDims to the exact rational result within "
-               "1e-9).  x.copy() is the model's copy at heap level (translating Copyable.copy belongs to C06).",
+               "1e-9).  x.copy() is the model's copy at heap level (translating Copyable.copy belongs to C06).  Trusted "
+               "vocabulary of the translation (one Lean word for a whole numpy expression; a change inside stops the "
+               "match and breaks the obligation, but what the word MEANS is not verified): hstackOnes = "
+               "np.hstack([x, np.ones([n, 1])]), dotT = a.dot(m.T) / np.dot(a, m.T), normLast = (y / y[:, -1][:, None])[:, :-1], "
+               "sliceLinear / sliceTranslation = m[:-1, :-1] / m[:-1, -1], addRow = broadcast +, pySlice, pyRange, npVstack, "
+               "colIndex = x[:, dims].  Which clause is decided where: 'nothing is modified' / no harmful aliasing is "
+               "decided by the HEAP-level obligations and theorems (a dropped self.copy() breaks srcH_t_transform_eq), by "
+               "the measured write tables and by the oracle's digests of the state the property names; the VALUE-level "
+               "translation does not see object identity (there a copy is the value itself).  Sharing between result "
+               "and input, and apply(array) returning its argument's memory, are not judged by the oracle (the text "
+               "does not forbid them): the former is a correspondence observation, the latter a counted note.",
     rule="a case = one (shape, transform, batch_size) triple: shape class x n_dims x 0-3 landmark groups (each of one of "
          "the 8 classes, possibly with groups of their own, up to depth 3) x coordinate storage x transform class "
          "with dyadic / rational-circle parameters; distinct = distinct (shape class, group classes, transform class, "
@@ -144,10 +157,33 @@ INFO = dict(
              "WithDims on an array WITHOUT points: numpy checks the index against n_dims even when there are no rows; an "
              "array is a list of rows in the model and has no width when it is empty, so there nothing is checked "
              "(the correspondence uses arrays with points for the index errors)",
+             "batching of TransformChain and PiecewiseAffine: they override _apply_batched (TransformChain delegates to "
+             "AbstractPWA._apply_batched, a loop of its own that also collects TriangleContainmentErrors); that body is "
+             "neither translated nor modelled - 'batch_size is invisible' and the batch_size <= 0 outcome are decided "
+             "for these two classes by oracle + correspondence only (every run: positive sizes on chains incl. a "
+             "piecewise-affine member, batch_size 0 / negative on chains and piecewise affine); applyTable_ok pins who "
+             "supplies the method",
+             "apply_batched_expected / withDims_* / homApply are stated over TOTAL definitions (applyBatched cuts no batch "
+             "for size 0, withDims reads a missing column as 0, homApply divides by w = 0 to 0): they carry the "
+             "hypothesis batch_size None-or-positive, resp. are the code only for in-range indices / w != 0; the error "
+             "behaviour is in applyBatchedE / withDimsE (apply_nonpos_batch, withDimsE_*), division by w = 0 (numpy: "
+             "nan / inf) is not modelled",
              "piecewise-affine transforms outside their domain raise by design: there only 'nothing that existed is "
              "written' is claimed (theorem h_apply_frame_any, oracle + driver on every run), not a result"],
     assumptions=["numpy computes the same floats for the same operation on equal arrays of equal shape (points of "
-                 "apply(shape) are compared with apply(shape.points) at 1e-9 relative)"],
+                 "apply(shape) are compared with apply(shape.points) at 1e-9 relative)",
+                 "contract of a transform's _apply: a pure, deterministic function of the array it is given (this is what "
+                 "makes 'every group is moved by the SAME map' a theorem: one f for all groups), which returns or raises "
+                 "without writing into its argument or into the transform (checked per case by the oracle's digests and "
+                 "per run by no_other_writes, not proved)",
+                 "Copyable.copy, LandmarkManager.copy and LabelledPointUndirectedGraph.copy are hand-transcribed "
+                 "(Core/C02.lean), not translated: every 'mutates nothing' theorem rests on that transcription, on the "
+                 "regenerated method-resolution table and on attrKinds_ok measured on sample instances",
+                 "ndarrays are cells of immutable content that are only ever replaced; dtype and memory layout are not "
+                 "modelled (Arr = List (List Rat)); they are exercised by the oracle only",
+                 "`points`, `_landmarks`, `_landmark_groups` are plain instance attributes (no descriptor, no __setattr__ "
+                 "hook): attribute assignment is a slot write",
+                 "TransformChain / PiecewiseAffine run an overridden _apply_batched that is not modelled (see partial)"],
     design_ref="DESIGN.md section 6, C02")
 IMPORTS = ["MenpoModel.Props.C02"]
 THEOREMS = [
@@ -602,7 +638,16 @@ def digest(o, seen=None, skip=()):
         return ("cycle", type(o).__name__)
     if hasattr(o, "__dict__") and not callable(o):
         seen = seen | {id(o)}
-        return ("obj", type(o).__name__, tuple((k, digest(v, seen, skip)) for k, v in o.__dict__.items() if k not in skip))
+
+        def canon(k, v):
+            # `_landmarks = None` and a LandmarkManager without groups are the same public state (the `landmarks` getter
+            # creates the empty manager on first touch; has_landmarks / n_groups do not change)
+            if k == "_landmarks" and v is not None and type(v).__name__ == "LandmarkManager" \
+                    and len(v.__dict__.get("_landmark_groups") or ()) == 0:
+                return None
+            return v
+        return ("obj", type(o).__name__, tuple((k, digest(canon(k, v), seen, skip)) for k, v in o.__dict__.items()
+                                              if k not in skip))
     return ("other", type(o).__name__, getattr(o, "__name__", ""))
 
 
@@ -1013,7 +1058,10 @@ def oracle(ctx, site, rp, ssp, tsp, kw, shape, t, t_fresh, res, d_shape, d_t):
     chk(ctx, arr_close(res.points, on_arr), site, "array-disagrees",
         "apply(shape).points differs from apply(shape.points) (max abs diff %s)" % _maxdiff(res.points, on_arr), rp)
     chk(ctx, arr.tobytes() == arr_bytes, site, "array-argument-written", "apply(array) wrote into its argument", rp)
-    chk(ctx, not np.shares_memory(on_arr, arr), site, "array-aliased", "apply(array) returned memory of its argument", rp)
+    # NOT judged (the text demands the same numbers and no modification, not a fresh buffer: `TransformChain([])` hands
+    # its argument back): counted only
+    if on_arr is not None and np.shares_memory(on_arr, arr):
+        ctx.count("note:apply(array)-returned-memory-of-its-argument")
     # homogeneous family: the numbers against exact rational arithmetic
     if kind in HOMOG + ALIGN:
         hm = np.array(t_fresh.h_matrix)
@@ -1044,18 +1092,27 @@ def oracle(ctx, site, rp, ssp, tsp, kw, shape, t, t_fresh, res, d_shape, d_t):
     # aliasing between result and input: no object, dict or points buffer in common; writes through the result invisible
     mine = {id(x) for x in objects_of(shape)}
     shared = [type(x).__name__ for x in objects_of(res) if id(x) in mine]
-    chk(ctx, not shared, site, "shares-objects", "result shares %r with the input" % shared[:4], rp)
+    # Sharing between result and input is NOT modification and the property text does not forbid it: these three are
+    # observations about the correspondence with the heap model (whose theorems say the result consists of new cells);
+    # they lead to the directed search, they are not oracle failures.  The property-level consequence of harmful sharing
+    # (the in-place pass on a shared manager / array moves the INPUT) is judged above: `input-mutated`.
+    if shared:
+        ctx.mismatch("sharing", "result shares %r with the input (the heap model: every object of the result is new)"
+                     % shared[:4], rp)
     in_arrays = all_arrays(shape)
     out_arrays = all_arrays(res)
-    chk(ctx, not any(np.shares_memory(x, y) for x in in_arrays for y in out_arrays), site, "shares-points",
-        "a points array of the result shares memory with the input", rp)
+    if any(np.shares_memory(x, y) for x in in_arrays for y in out_arrays):
+        ctx.mismatch("sharing", "a points array of the result shares memory with the input (the heap model: the closure's "
+                                "result is a new array)", rp)
     for x in out_arrays:
         if x.flags.writeable:
             x += 1
     for x in objects_of(res):
         if isinstance(x, dict):
             x["__verif__"] = None
-    chk(ctx, digest(shape) == d_shape, site, "write-through", "writing into the result changed the input", rp)
+    if digest(shape) != d_shape:
+        ctx.mismatch("sharing", "writing into the result changed the input (the heap model: result and input share no "
+                                "mutable cell)", rp)
     return on_arr
 
 
@@ -1267,6 +1324,16 @@ def directed(ctx, lines, pending):
             ssp = gen_shape_spec(rng, cls, d, 0)
             run_case(ctx, ssp, {"kind": "Translation", "t": [0.0] * d}, None, lines, pending)
             run_case(ctx, ssp, {"kind": "UniformScale", "s": 1.0, "d": d}, 2, lines, pending)
+            # chains of boundary length: the EMPTY chain (apply(array) hands its argument back: legal) and one member
+            ssp = gen_shape_spec(rng, cls, d, 1, n_groups=1)
+            for node in spec_nodes(ssp):
+                for key in ("store", "alias", "share_points"):
+                    node.pop(key, None)
+            ctx.count("chain-length:0")
+            run_case(ctx, ssp, {"kind": "TransformChain", "members": []}, [None, 2][d % 2], lines, pending)
+            ctx.count("chain-length:1")
+            run_case(ctx, ssp, {"kind": "TransformChain", "members": [gen_transform_spec(rng, "Affine", d)]},
+                     [2, None][d % 2], lines, pending)
     # storage of the coordinates: every dtype and every layout under every shape class, on the host and on a
     # group; then the same shapes in a second life (result of an earlier transform), and aliasing inside the manager
     combos = [(dt, STORE_LAYOUTS[i % len(STORE_LAYOUTS)]) for i, dt in enumerate(STORE_DTYPES)] + \
@@ -1451,6 +1518,22 @@ def error_branches(ctx, lines, pending):
                 ssp = plain(cls, d, 2)
                 run(ssp, lambda tsp=tsp: build_transform(tsp), {"batch_size": k}, ["tot"] + ex,
                     "batch_size=%d %s" % (k, tsp["kind"]))
+    # … through the two OVERRIDES of _apply_batched (TransformChain delegates to AbstractPWA's; PiecewiseAffine): for
+    # batch_size <= 0 the closure is never run on an array that has points, so the model needs no table (`tab 0`)
+    for ci, cls in enumerate(SHAPES):
+        for k in (0, -2):
+            d = 2 + (ci + k) % 2
+            tsp = gen_transform_spec(rng, "TransformChain", d)
+            run(plain(cls, d, 1), lambda tsp=tsp: build_transform(tsp), {"batch_size": k}, ["tot", "tab", "0"],
+                "batch_size=%d TransformChain" % k)
+        tsp = gen_transform_spec(rng, "PiecewiseAffine", 2)
+        inside = pwa_domain(tsp)
+        ssp = gen_shape_spec(rng, cls, 2, 1, inside)
+        for node in spec_nodes(ssp):
+            for key in ("store", "alias", "share_points"):
+                node.pop(key, None)
+        run(ssp, lambda tsp=tsp: build_transform(tsp), {"batch_size": [0, -1][ci % 2]}, ["tot", "tab", "0"],
+            "batch_size=%d PiecewiseAffine" % [0, -1][ci % 2])
     # … trees without a single point: nothing to batch, the call returns whatever the batch size
     for d in (2, 3):
         for k in (0, -2):
